@@ -47,7 +47,7 @@ impl Deserialize for NativeScripts {
                 cbor_event::Len::Len(n) => arr.len() < n as usize,
                 cbor_event::Len::Indefinite => true,
             } {
-                if is_break_tag(raw, "NativeScripts")? {
+                if is_break_tag(raw, len, "NativeScripts")? {
                     break;
                 }
                 arr.push(NativeScript::deserialize(raw)?);
